@@ -24,6 +24,10 @@ const (
 	maxFuncParamsCount       = 128 // reflect.FuncOf panics with more parameters and results.
 	maxSelectCasesCount      = 65536
 
+	// Non-local variables.
+	maxGlobalsCount     = 1 << 15 // 32768
+	maxClosureVarsCount = 1 << 15 // 32768
+
 	// Types.
 	maxTypesCount = 256
 
